@@ -44,9 +44,10 @@ Lemma m2d_join rest : forall k0 n o,
   m2d n us [(join_with "_" (k0 :: rest), Leaf o)] = [(k0, nest rest (Leaf o))].
 Proof.
   induction rest as [|k1 r IH]; intros k0 n o Hf Hn.
-  - assert (E : fold_left (magic_step us) [(join_with "_" [k0], Leaf o)] [] = [(k0, Leaf o)]).
-    { simpl. rewrite (split_join k0 [] Hf). reflexivity. }
-    destruct n; simpl m2d; rewrite E; reflexivity.
+  - pose proof (split_join k0 [] Hf) as S0. cbn [join_with] in S0.
+    assert (E : fold_left (magic_step us) [(k0, Leaf o)] [] = [(k0, Leaf o)]).
+    { cbn [fold_left]. unfold magic_step. cbn [fst snd]. rewrite S0. reflexivity. }
+    cbn [join_with]. destruct n; cbn [m2d]; rewrite E; reflexivity.
   - inversion Hf as [|x l Hk0 Hrest]; subst.
     assert (E : fold_left (magic_step us) [(join_with "_" (k0 :: k1 :: r), Leaf o)] []
                 = [(k0, Node [(join_with "_" (k1 :: r), Leaf o)])]).
@@ -64,7 +65,7 @@ Proof.
   induction rest as [|k1 r IH]; intros k0.
   - simpl. lia.
   - change (join_with "_" (k0 :: k1 :: r)) with (String.append k0 (String us (join_with "_" (k1 :: r)))).
-    rewrite append_length. simpl String.length. specialize (IH k1). simpl List.length. lia.
+    rewrite append_length. cbn [String.length List.length]. specialize (IH k1). lia.
 Qed.
 
 Lemma magic_to_dict_join (k0 : string) (rest : path) (o : option val) :
@@ -72,7 +73,9 @@ Lemma magic_to_dict_join (k0 : string) (rest : path) (o : option val) :
   magic_to_dict [(join_with "_" (k0 :: rest), Leaf o)] = [(k0, nest rest (Leaf o))].
 Proof.
   intros Hf. unfold magic_to_dict. apply m2d_join; [exact Hf|].
-  simpl tfuel. pose proof (join_length rest k0). lia.
+  change (tfuel (Node [(join_with "_" (k0 :: rest), Leaf o)]))
+    with (S (String.length (join_with "_" (k0 :: rest)) + 0 + 0)).
+  pose proof (join_length rest k0). lia.
 Qed.
 
 (* ---------------------------------------------------------------- update_nested_dict *)
@@ -148,35 +151,43 @@ Qed.
 
 (* ---------------------------------------------------------------- non-vacuity of the schema-wide theorems *)
 Definition p_color : path := ["color"].
-Definition p_backend : path := ["display"; "backend"].
+Definition p_color0 : path := ["display"; "style"; "base"; "color"].
 Definition p_blabel : path := ["display"; "style"; "base"; "label"].
 
-Lemma c20_nonvacuous_proof :
-  (exists cs p k al, In cs style_classes /\ In (p, k, al) (sleaves (snd cs)) /\ shadowed (snd cs) p = false /\
-                     two k <> [] /\ notations p <> [] /\ bad_vals k <> []) /\
-  (exists p k al, In (p, k, al) (sleaves defaults_schema) /\ in_literal p = true /\
-                  shadowed defaults_schema p = false /\ two k <> [] /\ notations_coarse p <> []) /\
-  (exists p k al, In (p, k, al) (sleaves defaults_schema) /\ in_literal p = false /\ two k <> []) /\
-  (exists cls p k, In cls public_classes /\ In (p, k, false) (sleaves (class_schema cls)) /\
-                   prec_leaf k p = true /\ shadowed (class_schema cls) p = false) /\
-  all_sources <> [] /\ prec_variants <> [] /\ ctor_style <> [].
+Lemma nv1 : exists cs p k al, In cs style_classes /\ In (p, k, al) (sleaves (snd cs)) /\
+                     shadowed (snd cs) p = false /\ two k <> [] /\ notations p <> [] /\ bad_vals k <> [].
 Proof.
-  repeat split.
-  - exists ("MagnetStyle", schema_MagnetStyle), p_color, KColor, false.
-    repeat split; try (vm_compute; congruence).
-    + right; left; reflexivity.
-    + apply (nth_error_In _ (leaf_index schema_MagnetStyle p_color)). vm_compute. reflexivity.
-  - exists p_backend. eexists. exists false.
-    repeat split; try (vm_compute; congruence).
-    apply (nth_error_In _ (leaf_index defaults_schema p_backend)). vm_compute. reflexivity.
-  - exists p_blabel, KToStr, false.
-    repeat split; try (vm_compute; congruence).
-    apply (nth_error_In _ (leaf_index defaults_schema p_blabel)). vm_compute. reflexivity.
-  - exists "Cuboid", p_color, KColor.
-    repeat split; try (vm_compute; congruence).
-    + left; reflexivity.
-    + apply (nth_error_In _ (leaf_index (class_schema "Cuboid") p_color)). vm_compute. reflexivity.
-  - vm_compute; congruence.
-  - vm_compute; congruence.
-  - vm_compute; congruence.
+  exists ("MagnetStyle", schema_MagnetStyle), p_color, KColor, false.
+  split; [right; left; reflexivity|].
+  split; [apply (nth_error_In _ (leaf_index schema_MagnetStyle p_color)); vm_compute; reflexivity|].
+  split; [vm_compute; reflexivity|]. split; [vm_compute; congruence|]. split; vm_compute; congruence.
 Qed.
+
+Lemma nv2 : exists p k al, In (p, k, al) (sleaves defaults_schema) /\ in_literal p = true /\
+                  shadowed defaults_schema p = false /\ two k <> [] /\ notations_coarse p <> [].
+Proof.
+  exists p_color0, KColor, false.
+  split; [apply (nth_error_In _ (leaf_index defaults_schema p_color0)); vm_compute; reflexivity|].
+  split; [vm_compute; reflexivity|]. split; [vm_compute; reflexivity|]. split; vm_compute; congruence.
+Qed.
+
+Lemma nv3 : exists p k al, In (p, k, al) (sleaves defaults_schema) /\ in_literal p = false /\ two k <> [].
+Proof.
+  exists p_blabel, KToStr, false.
+  split; [apply (nth_error_In _ (leaf_index defaults_schema p_blabel)); vm_compute; reflexivity|].
+  split; [vm_compute; reflexivity|vm_compute; congruence].
+Qed.
+
+Lemma nv4 : exists cls p k, In cls public_classes /\ In (p, k, false) (sleaves (class_schema cls)) /\
+                   prec_leaf k p = true /\ shadowed (class_schema cls) p = false.
+Proof.
+  exists "Cuboid", p_color, KColor.
+  split; [left; reflexivity|].
+  split; [apply (nth_error_In _ (leaf_index (class_schema "Cuboid") p_color)); vm_compute; reflexivity|].
+  split; vm_compute; reflexivity.
+Qed.
+
+Lemma nv5 : all_sources <> [] /\ prec_variants <> [] /\ ctor_style <> [].
+Proof. split; [|split]; vm_compute; congruence. Qed.
+
+Definition c20_nonvacuous_proof := conj nv1 (conj nv2 (conj nv3 (conj nv4 nv5))).
